@@ -311,6 +311,7 @@ func Run(check Check, o *Options) int {
 			return out
 		}
 		deaths := 0
+		fatal := 0 // worker deaths and hangs already recorded as violations
 		for w := 0; w < o.Workers; w++ {
 			wg.Add(1)
 			go func() {
@@ -357,6 +358,7 @@ func Run(check Check, o *Options) int {
 								Detail: "case did not finish alone within the watchdog limit\n" + r.stderr, Case: describe(j.w.Name, i)}
 							if hangViol {
 								total.Violations = append(total.Violations, v)
+								fatal++
 							} else {
 								total.Inconclusive = append(total.Inconclusive, fmt.Sprintf("%s/%d: did not finish alone within the watchdog limit", j.w.Name, i))
 							}
@@ -365,12 +367,20 @@ func Run(check Check, o *Options) int {
 								Detail: "the process running this case died\n" + r.stderr, Case: describe(j.w.Name, i)}
 							if deathViol {
 								total.Violations = append(total.Violations, v)
+								fatal++
 							} else {
 								total.Inconclusive = append(total.Inconclusive, fmt.Sprintf("%s/%d: worker died: %s", j.w.Name, i, firstLine(r.stderr)))
 							}
 							total.Cases++
 						}
-						if j.w.Serial {
+						if fatal >= 4 {
+							// the verdict is settled; every further death costs a watchdog period
+							if len(queue) > 0 {
+								notes = append(notes, fmt.Sprintf("%d worker deaths / hangs recorded as violations; %d queued batches dropped", fatal, len(queue)))
+								total.Inconclusive = append(total.Inconclusive, "exploration stopped early after 4 fatal violations")
+							}
+							queue = nil
+						} else if j.w.Serial {
 							total.Inconclusive = append(total.Inconclusive, fmt.Sprintf("serial workload %s interrupted at case %d", j.w.Name, i))
 						} else {
 							if i > j.from {
